@@ -242,16 +242,20 @@ ProcessMessage(ep0, f, now, declined, up) ==
               IN IF g.valid THEN Finalize(e4, f, now) ELSE e4
 
 (* ---- heartbeat_timer_task: one wake-up at time `now` --------------------------- *)
-HeartbeatTick(ep, now, H, up) ==
+\* Times (now, ep.last) are in units of 1/S second so that fractional arrival times stay integers;
+\* H is in seconds.  The TestReqID is int(time.time()), i.e. whole seconds.
+HeartbeatTickS(ep, now, H, S, up) ==
     IF ~ep.sock THEN ep
-    ELSE LET e1 == IF ep.cs = "ACTIVE" /\ now - ep.last > H - 1
+    ELSE LET sec == now \div S
+             e1 == IF ep.cs = "ACTIVE" /\ now - ep.last > (H - 1) * S
                    THEN LET s == IF ep.treq = 0
-                                 THEN SendMsg([ep EXCEPT !.treq = now], TRFrame(ToString(now)), up) ELSE ep
+                                 THEN SendMsg([ep EXCEPT !.treq = sec], TRFrame(ToString(sec)), up) ELSE ep
                         IN IF Failed(s) THEN s ELSE [s EXCEPT !.last = now]
                    ELSE ep
-             e2 == IF ~Failed(e1) /\ e1.last # 0 /\ now - e1.last > 2 * H THEN Disconnect(e1, BROKEN, "none", up) ELSE e1
-             e3 == IF ~Failed(e2) /\ e2.treq # 0 /\ now - e2.treq > 2 * H THEN Disconnect(e2, BROKEN, "none", up) ELSE e2
+             e2 == IF ~Failed(e1) /\ e1.last # 0 /\ now - e1.last > 2 * H * S THEN Disconnect(e1, BROKEN, "none", up) ELSE e1
+             e3 == IF ~Failed(e2) /\ e2.treq # 0 /\ now - e2.treq * S > 2 * H * S THEN Disconnect(e2, BROKEN, "none", up) ELSE e2
          IN Swallow(e3)
+HeartbeatTick(ep, now, H, up) == HeartbeatTickS(ep, now, H, 1, up)
 
 (* ---- socket_read_task: end of stream / connection error ------------------------- *)
 ReadEOF(ep, up) == Swallow(Disconnect(ep, BROKEN, "none", up))
